@@ -5,11 +5,11 @@ import json, subprocess, sys
 CLAIMED = {
  "C01": dict(level="exploration", ref="DESIGN.md §7 C01, §2.3",
    technique="deterministic simulation: seeded sessions through a fault-injecting line (cut/empty read/bit flip/drop/dup/noise/truncate/restart) into the real parser+screen with simulated renderer/resizer/operator actors; crash, abort, hang and wedge oracle",
-   text="Seeded search over sessions, corruption faults, chunkings and actor interleavings (wiring P and Q, UTF-8 and 8-bit, 1x1..140x40); every run must return, leave the mutex unpoisoned, let display() return, and still process a probe stream (BEL CAN BEL CAN ESC c A must put A into cell 0,0). Truncation (program crash) is enumerated at every byte for short sessions. Sampling: a clean batch is evidence, not proof.",
+   text="Seeded search over sessions, corruption faults, chunkings and actor interleavings (wiring P and Q, UTF-8 and 8-bit, 1x1..140x40); every run must return, leave the mutex unpoisoned, let display() return, and still process a probe stream (BEL CAN BEL CAN ESC c A must put A into cell 0,0). Truncation (program crash) is enumerated at every byte for short sessions; a few per mille of the runs blow one construct up far beyond the usual sizes. The thorough tier first runs an unoptimised build (largest frames on the parser's coroutine stack). Sampling: a clean batch is evidence, not proof.",
    note="Built with overflow-checks and debug-assertions; aborts/stack overflows/hangs are seen by the parent process (signal exit, 20 s watchdog). Allocation failure and sizes beyond 140x40/132 are out of scope."),
  "C02": dict(level="fault_enumeration", ref="DESIGN.md §7 C02",
    technique="deterministic simulation: twin run of the real implementation under two delivery schedules of the same (fault-mangled) stream; every 2-way cut and byte-at-a-time enumerated for short streams, seeded k-way partitions otherwise",
-   text="Model-free twin: the delivered stream fed in one call vs. cut into chunks must end in identical snapshots (cells, cursor, modes, margins, tab stops, titles, charsets, savepoint depth, dirty). For streams <= 64 bytes every 2-way cut and byte-at-a-time delivery are enumerated; longer ones and captured sessions get seeded partitions with empty reads. Parser (chars), ByteParser UTF-8 and 8-bit.",
+   text="Model-free twin: the delivered stream fed in one call vs. cut into chunks must end in identical snapshots (cells, cursor, modes, margins, tab stops, titles, charsets, savepoint depth, dirty). For streams <= 64 bytes every 2-way cut and byte-at-a-time delivery are enumerated; longer ones and captured sessions get seeded partitions with empty reads. Parser (chars), ByteParser UTF-8 and 8-bit. Every 4th case is repeated with a second, unrelated terminal driven on the same thread between the chunks (state kept outside the objects); a few per mille of the streams are blown up far beyond the usual sizes (thousands of characters in one OSC, dozens of CSI parameters, kilobytes of ill-formed bytes).",
    note="Wiring P (production ByteParser/Parser + Arc<Mutex<Screen>>); streams are sampled, cut positions enumerated."),
 }
 
@@ -82,7 +82,7 @@ CLAIMED.update({
    note="Stop sets compared on [0, columns) only."),
  "C19": dict(level="exploration", ref="DESIGN.md §7 C19, §8.1",
    technique="deterministic simulation of the stream reader: seeded OSC-heavy streams in seeded chunkings; recorded events vs the reference recogniser, and a model-free twin (same stream without its OSC strings) on the real screen",
-   text="Grade C. Title/icon events carry exactly the payload (any text incl. ; \\ ], non-ASCII, ESC x pairs, C0), all three terminators and both introducers, empty payloads, other codes without effect; the payload never reaches the grid or moves the cursor.",
+   text="Grade C (plus a neighbour-terminal twin: every 4th case is repeated next to another terminal that is inside an OSC string of its own). Title/icon events carry exactly the payload (any text incl. ; \\ ], non-ASCII, ESC x pairs, C0), all three terminators and both introducers, empty payloads, other codes without effect; the payload never reaches the grid or moves the cursor.",
    note="Model-free second half: the same stream with its OSC strings cut out must leave the same grid and cursor."),
  "C20": dict(level="exploration", ref="DESIGN.md §7 C20",
    technique=SIMQ+"DEFINE/SHIFT step relations against reference tables, a translation twin for every draw, and the parser path checked against the reference recogniser",
